@@ -13,6 +13,10 @@ VERIF = coq.VERIF
 REPO = os.environ.get('VERIF_REPO', '/repo')
 GUARD = 'PYSYNCOBJ_VERIF'
 
+# theorem files shared by several properties: the refinement of the L1 model to abstract Raft (log matching, leader
+# completeness, state-machine safety, committed entries never change) is an obligation of each of these
+SHARED_PROPS = {'C01': ['TierC'], 'C03': ['TierC'], 'C04': ['TierC']}
+
 BASE_TRUSTED = [
     'Coq 8.16.1 kernel (coqc); vm_compute conversion is used to evaluate the model in the correspondence check, '
     'in finite forallb sweeps and in *_refuted witnesses; native_compute is not used',
@@ -92,23 +96,35 @@ class Ctx(object):
     def coq_obligations(self, extra_targets=()):
         """Build Props/<pid>.vo (and its dependencies) from the current sources, run the audit,
         re-check the property file capturing Print Assumptions.  Each theorem is one obligation."""
-        targets = ['Props/%s.vo' % self.pid] + list(extra_targets)
+        shared = [x for x in SHARED_PROPS.get(self.pid, []) if os.path.exists(os.path.join(coq.COQDIR, 'Props', x + '.v'))]
+        targets = ['Props/%s.vo' % self.pid] + ['Props/%s.vo' % x for x in shared] + list(extra_targets)
         ok, log, cmd = coq.make(targets, timeout=3000)
         self.checker_cmds.append('cd /verif/coq && ' + cmd)
         self.obligation('build:' + ' '.join(targets), ok, '' if ok else log[-3000:])
         if not ok:
             self.note('Coq build failed:\n' + log[-3000:])
         files = coq.deps_closure(self.pid)
+        for x in shared:
+            files = sorted(set(files) | set(coq.deps_closure(x)))
         problems = coq.audit(files)
         self.obligation('audit:no-axioms-no-admits', not problems, '; '.join(problems[:20]))
         self.extra['audited_files'] = [os.path.relpath(f, VERIF) for f in files]
         res = coq.check_props(self.pid, self.work)
         self.checker_cmds.append(res['cmd'])
+        for x in shared:
+            r2 = coq.check_props(x, self.work)
+            self.checker_cmds.append(r2['cmd'])
+            res['shape_problems'] += r2['shape_problems']
+            res['theorems'] += r2['theorems']
+            res['ok'] = res['ok'] and r2['ok']
+            res['log'] += r2['log']
         for p in res['shape_problems']:
             self.obligation('shape:' + p[:60], False, p)
         stm = {}
         try:
             stm = coq.theorem_statements(self.pid)
+            for x in shared:
+                stm.update(coq.theorem_statements(x))
         except Exception:
             pass
         for t in res['theorems']:
